@@ -298,4 +298,11 @@ func runC16(r *Run) {
 		"for loading caches Hits() cannot be told apart from shared loads at the client boundary: the oracle demands Hits+Misses == gets, loads <= Misses and Hits <= gets that did not run the loader")
 	n := r.Pick(40, 1200)
 	parMap(n, 4, func(i int) { c16Round(r, i) })
+	// EstimatedSize against the resident cost after writes that change the cost of an entry whose deadline has
+	// passed but which has not been reclaimed (c02.go; the rounds above keep clear of expired entries)
+	if r.Shard == 0 {
+		for i := 0; i < r.Pick(12, 120); i++ {
+			expiredThenRewritten(r, i, "C16")
+		}
+	}
 }
